@@ -70,9 +70,9 @@ func gen(g *hx.Gen) {
 			case 0:
 				reqs[j] = letters[r.Intn(L)]
 			case 1, 2, 3:
-				reqs[j] = sauth.RandKbd(r, g, "a")
+				reqs[j] = sauth.RandKbd(r, g, sauth.U0)
 			default:
-				reqs[j] = sauth.RandGss(r, g, "a")
+				reqs[j] = sauth.RandGss(r, g, sauth.U0)
 			}
 		}
 		sauth.SetOutcomes(r, r.PickInt(0, 0, 2, 3, 3, 4), reqs)
